@@ -29,7 +29,7 @@ class C17(HistoryProperty):
     ASSUMPTIONS = ["backend faults are limited to the kinds the statement lists", "stub bodies are deterministic"]
     REAL = HistoryProperty.REAL
     STUBS = HistoryProperty.STUBS + ["FaultyCache(Cache): fingerprint-keyed dict with a scripted fault per global call index"]
-    QUICK = {"runs": 500, "wall": 45}
+    QUICK = {"runs": 350, "wall": 45}
     THOROUGH = {"runs": 60000, "wall": 540}
     REQUIRED_CACHE = "faulty"
     NONTRIVIAL_MEASURE = "run_with_fired_fault"
